@@ -133,7 +133,11 @@ var c18Templates = map[string]string{
 	// templates that ask for templates nobody has, each under another name
 	"miss1.html": "a{% include 'nothere-1' %}b", "miss2.txt": "{% extends 'nothere-22' %}{% block b %}x{% endblock %}", "miss3.html": "p{% import 'nothere-333' as m %}{{ m.x() }}q",
 	"miss4.js": "{% for i in 1..3 %}{% include 'gone' ~ i %}{% endfor %}", "miss5.html": "{% embed 'nothere-55555' %}{% endembed %}", "miss6.txt": "{% use 'nothere-6' %}{% from 'nothere-66' import a %}",
-	"tests.txt": "{{ 4 is pos }}{{ 0 is not pos }}{% for i in items if i %}{{ loop.index }}{{ i }}{% else %}none{% endfor %}",
+	// two from-imports under one name, and several that are not there: whichever wins, it wins every time
+	"fromdup.html":  "{% from 'macros3.twig' import a as x, b as x, c as y, a as y %}{{ x() }}{{ y() }}",
+	"frommiss.html": "{% from 'macros3.twig' import zz1, a, zz2 as q, zz3 %}{{ a() }}",
+	"macros3.twig":  "{% macro a() %}A{% endmacro %}{% macro b() %}B{% endmacro %}{% macro c() %}C{% endmacro %}",
+	"tests.txt":     "{{ 4 is pos }}{{ 0 is not pos }}{% for i in items if i %}{{ loop.index }}{{ i }}{% else %}none{% endfor %}",
 }
 
 // c18Shared / c18SharedMap are read-only values that every context refers to (the same Go slice, with spare
